@@ -213,6 +213,7 @@ def main():
     d = os.path.join(run.wd, "files")
     os.makedirs(d, exist_ok=True)
     conv = []
+    back_traced = []
     for k in range(6 if run.thorough else 2):
         for kind in ("bw", "bb"):
             items = cf.text_items(kind, [3, 4, 2, 4, 3, 2][k % 6])      # 4: infinities, NaN, -0 among the values
@@ -226,13 +227,22 @@ def main():
                 args = [big, out, "-t", str(th)] + (["--inmemory"] if inm else [])
                 if seed:
                     os.environ["BIGTOOLS_VERIF_DELAY_SEED"] = str(seed)
-                rc2, _, err2 = cf.run_tool(tdir, "own", "bigwigtobedgraph" if kind == "bw" else "bigbedtobed", args)
+                trf = os.path.join(d, "cvtr%d_%s_%d.txt" % (k, kind, j)) if th > 1 else None
+                rc2, _, err2 = cf.run_tool(tdir, "own", "bigwigtobedgraph" if kind == "bw" else "bigbedtobed", args, trace=trf)
                 os.environ.pop("BIGTOOLS_VERIF_DELAY_SEED", None)
+                if trf:
+                    # the multi-threaded back-converter is the same lane pipeline (one staging buffer per chromosome, the output file
+                    # handed from lane to lane in order): its recorded hook events are validated against Pipeline.tla as well
+                    evs = []
+                    cf.path_events(trf, evs)
+                    if evs:
+                        back_traced.append(({"source": "back-converter", "kind": kind, "threads": th, "inmem": inm, "seed": seed}, evs))
                 data = open(out, "rb").read() if os.path.exists(out) else b""
                 runs.append({"ok": 1 if (rc == 0 and rc2 == 0) else 0, "digest": hashlib.sha256(data).hexdigest()[:24] + ":%d" % len(data)})
             conv.append({"obs": {"result": "ok", "runs": runs}})
             lines.append(json.dumps(conv[-1], separators=(",", ":")))
             run.count_case("converter %s %d" % (kind, k), True)
+    validate_pipeline_traces(run, back_traced, label="back_converter_trace_validation", min_lanes=20, min_multi=1)
     allobs = obs + conv
     bad = validate_obs("Obs_Det", "Obs.cfg", lines, run.wd, "obs", shards=1)
     run.cov["traces_validated_against_impl"] += len(allobs)
